@@ -25,10 +25,7 @@ func vNondetSpecial(maxPieces int) string {
 }
 
 func vPieces() int {
-	if vTier() == 1 {
-		return 4
-	}
-	return 3
+	return vP("pieces", 3, 4)
 }
 
 func vEscOrder() {
